@@ -17,6 +17,7 @@ import Driver.C10
 import Driver.C11
 import Driver.C12
 import Driver.C18
+import Driver.C15
 open Ws.Driver
 
 def dispatch (op : String) (args : List String) (obs : String) : String × String :=
@@ -54,6 +55,7 @@ def dispatch (op : String) (args : List String) (obs : String) : String × Strin
   | "cf" => c12cf args obs
   | "badc" => c12badc args obs
   | "rst" => c18rst args obs
+  | "fz" => c15fz args obs
   | "neg" => c14neg args obs
   | "popt" => c14popt args obs
   | "msb" => c13msb args obs
